@@ -9,6 +9,11 @@
 (* record c (JSON: checks/c12_driver.py):                                  *)
 (*   c.scheme, c.dim, c.solids, c.clean, c.chooser, c.integrator           *)
 (*   c.opts     : Seq([k, v])            option name -> value (as text)    *)
+(*   c.route, c.ctor : how the assignment was reached: the scheme is       *)
+(*                constructed with c.ctor (route "same": = opts; "flip" /  *)
+(*                "flip1": other values) and c.opts is then applied by     *)
+(*                scheme.configure before configure_solver; the property   *)
+(*                quantifies over the final assignment, whatever the route *)
 (*   c.setup    : [ok, stage, msg]       did every set-up call return      *)
 (*   c.arrays   : Seq([name, props])     property + constant names of each *)
 (*                                       particle array after set-up       *)
